@@ -82,6 +82,9 @@ pub struct CCfg {
     pub opts_order: u8,
     #[serde(default)]
     pub avoid: Vec<bool>,
+    /// An earlier (future-API) run executed on the same graph value before the stream is created.
+    #[serde(default)]
+    pub pre: Option<Box<crate::engine_s::RunCfg>>,
 }
 
 impl CCfg {
@@ -100,11 +103,15 @@ impl CCfg {
             budget_polls: 0,
             opts_order: 0,
             avoid: vec![],
+            pre: None,
         }
     }
 
     pub fn short(&self) -> String {
         let mut s = self.api.name().to_string();
+        if let Some(p) = &self.pre {
+            s = format!("[after {}] {s}", p.short());
+        }
         if self.opts_order != 0 {
             s += &format!(" opts-order={}", self.opts_order);
         }
